@@ -56,16 +56,30 @@ def b2c_source(db, ctx):
     b = db.one("build", "InputBuffer")
     stmts = b.hir.get("stmts", [])
     i_loop = i_c2b = i_b2c = i_fill = None
+    from ..db import is_local as _is_local
+    from ..origins import pat_bindings as _pb
+    idx_lid = None          # the enumerate() index of the build loop
+    carried = set()         # locals that carry that index out of the loop (`last_chidx = chidx`)
     for i, st in enumerate(stmts):
         e = st.get("e") or st.get("init") or {}
-        if e.get("k") == "Match" and e.get("src") == "ForLoopDesugar":
+        fl = for_loop_parts(e) if e.get("k") == "Match" else None
+        if fl:
             i_loop = i
-        t = render(e)
-        if "self.mod_c2b.push(self.mod_b2c.len())" in t:
-            i_c2b = i
-        if "self.mod_b2c.push((last_chidx + 1))" in t or "self.mod_b2c.push(last_chidx + 1)" in t:
-            i_b2c = i
-        if "fill_orig_b2c" in t:
+            pb = _pb(fl[1])
+            idx_lid = pb[0][0] if pb else None
+            for a_, _ in walk(fl[2]):
+                if a_.get("k") == "Assign" and peel(a_["l"]).get("res") == "local" and _is_local(a_["r"], idx_lid):
+                    carried.add(peel(a_["l"]).get("lid"))
+        for c_, _ in walk(e):
+            if c_.get("k") == "MethodCall" and c_.get("method") == "push" and c_.get("args") and i_loop is not None and i > i_loop:
+                tgt, arg = nf(c_["recv"]), peel_casts(c_["args"][0])
+                if tgt == "self.mod_c2b" and nf(arg) == "self.mod_b2c.len()":
+                    i_c2b = i
+                if tgt == "self.mod_b2c" and arg.get("k") == "Binary" and arg.get("op") == "Add":
+                    sides = (peel_casts(arg["l"]), peel_casts(arg["r"]))
+                    if any(lit_int(x) == 1 for x in sides) and any(isinstance(x, dict) and x.get("lid") in carried for x in sides):
+                        i_b2c = i
+        if "fill_orig_b2c" in render(e):
             i_fill = i
     ok = None not in (i_loop, i_c2b, i_b2c, i_fill) and i_loop < i_c2b < i_b2c < i_fill
     ctx.ob("build|sentinels-after-loop", ok, "build(): loop at %s, mod_c2b sentinel at %s, mod_b2c sentinel at %s, fill_orig_b2c at %s" % (i_loop, i_c2b, i_b2c, i_fill), fn=b)
@@ -76,14 +90,23 @@ def b2c_source(db, ctx):
     ctx.ob("build|iterates-modified", loop_src is not None and "self.modified.char_indices().enumerate()" in loop_src, "build() iterates `%s`" % loop_src, fn=b)
 
 
+_EDIT_ROLES = {"source": "&str", "source_mapping": "&std::vec::Vec<usize>", "target": "&mut std::string::String",
+               "target_mapping": "&mut std::vec::Vec<usize>", "edits": lambda t: t.startswith("&mut std::vec::Vec<") and "ReplaceOp" in t}
+
+
 @rule("C08.compose", "every value stored into the new offset map by resolve_edits / add_replace is read from the previous map "
                      "(source_mapping[..]), never a position of the current text, except the 0 anchor")
 def compose(db, ctx):
     n = 0
+    from ..db import param_roles, is_local
     for nm in ("resolve_edits", "add_replace"):
         f = db.one(nm, None)
+        # parameters by type, not by name: the previous map is the shared Vec<usize>, the new one the mutable Vec<usize>
+        R = param_roles(f, _EDIT_ROLES)
+        if "source_mapping" not in R or "target_mapping" not in R:
+            raise AnchorMissing("%s: (&Vec<usize>, &mut Vec<usize>) parameters" % nm)
         for c, ps in walk(f.hir):
-            if c.get("k") == "MethodCall" and c.get("method") in ("push", "extend", "extend_from_slice", "insert") and local_name(c["recv"]) == "target_mapping":
+            if c.get("k") == "MethodCall" and c.get("method") in ("push", "extend", "extend_from_slice", "insert", "resize") and is_local(c["recv"], R["target_mapping"]):
                 arg = c["args"][-1]
                 n += 1
                 from ..db import walk_x
@@ -95,7 +118,7 @@ def compose(db, ctx):
                         val = peel(val["recv"])
                     if val.get("k") == "MethodCall" and val.get("method") == "map" and val["args"] and peel(val["args"][0]).get("k") == "Closure":
                         val = peel(peel(val["args"][0])["body"])
-                from_src = any(x.get("k") == "Index" and local_name(x["e"]) == "source_mapping" for x, _ in walk_x(val))
+                from_src = any(x.get("k") == "Index" and is_local(x["e"], R["source_mapping"]) for x, _ in walk_x(val))
                 direct_pos = any(x.get("k") == "Field" and x.get("name") in ("start", "end") and not any(True for _ in []) for x, _ in walk(arg)
                                  ) and not from_src
                 ctx.ob("%s|%s#%d" % (nm, c["method"], n), from_src and not direct_pos,
@@ -104,11 +127,33 @@ def compose(db, ctx):
                                                                  "the current text would only be right while the previous map is the identity"), fn=f, site=c.get("sp"))
     ctx.floor(4)
     re = db.one("resolve_edits", None)
-    slices = [render(x) for x, _ in walk(re.hir) if x.get("k") == "Index" and local_name(x["e"]) == "source"]
-    ok = any("start: start" in s and "edit.what.start" in s for s in slices) and any("RangeFrom" in s and "start" in s for s in slices)
-    ctx.ob("resolve_edits|copies-gaps", ok, "unreplaced text is copied from source[start..edit.what.start] and source[start..]: %s" % slices, fn=re)
-    adv = any(n2.get("k") == "Assign" and local_name(n2["l"]) == "start" and "edit.what.end" in render(n2["r"]) for n2, _ in walk(re.hir))
-    ctx.ob("resolve_edits|advance", adv, "`start = edit.what.end` after each edit: %s" % adv, fn=re)
+    R = param_roles(re, _EDIT_ROLES)
+    # by role: the cursor is the local that bounds the copied gap `source[cursor .. <edit>.what.start]` from below; it must also
+    # bound the tail copy `source[cursor ..]` and be advanced to `<edit>.what.end` (whatever the cursor / loop variable are called)
+    from ..db import deref_all
+
+    def rng(ix):
+        st = [y for y, _ in walk(peel(ix.get("i") or {})) if y.get("k") == "Struct" and "ops::Range" in (y.get("path") or "")]
+        if not st:
+            return None, None, None
+        fl = {fld.get("name"): fld.get("e") for fld in (st[0].get("fields") or [])}
+        return st[0].get("path"), fl.get("start"), fl.get("end")
+
+    def what_field(e, name):
+        d = peel_casts(deref_all(e)) if isinstance(e, dict) else None
+        return isinstance(d, dict) and d.get("k") == "Field" and d.get("name") == name and peel(d.get("e") or {}).get("k") == "Field" and peel(d["e"]).get("name") == "what"
+    idx = [x for x, _ in walk(re.hir) if x.get("k") == "Index" and is_local(x["e"], R.get("source"))]
+    cursors = set()
+    for x in idx:
+        pth, lo, hi = rng(x)
+        if hi is not None and what_field(hi, "start") and isinstance(lo, dict) and peel_casts(lo).get("res") == "local":
+            cursors.add(peel_casts(lo).get("lid"))
+    tail = any(rng(x)[0] and rng(x)[0].endswith("RangeFrom") and isinstance(rng(x)[1], dict) and peel_casts(rng(x)[1]).get("lid") in cursors for x in idx)
+    slices = [render(x) for x in idx]
+    ok = len(cursors) == 1 and tail
+    ctx.ob("resolve_edits|copies-gaps", ok, "unreplaced text is copied from source[cursor..edit.what.start] and source[cursor..]: %s" % slices, fn=re)
+    adv = any(n2.get("k") == "Assign" and peel(n2["l"]).get("lid") in cursors and what_field(n2["r"], "end") for n2, _ in walk(re.hir))
+    ctx.ob("resolve_edits|advance", adv, "the cursor is set to edit.what.end after each edit: %s" % adv, fn=re)
 
 
 @rule("C08.map-owner", "identity map at start_build, first entry forced to 0, single owners of the map (re-evaluation of C01.map-owner)")
